@@ -70,8 +70,11 @@ def run(tier: str) -> int:
     run_.bounds = {"K": sorted({kw["K"] for kw in cfgs}), "segment_len": 4,
                    "sizes_by_K": {str(k): sorted({kw["size"] for kw in cfgs if kw["K"] == k}) for k in sorted({kw["K"] for kw in cfgs})},
                    "nak_modes": ["imm", "def"], "closure": [False, True], "limits": "K+1"}
-    kw = dict(cycle_clause=(P, "C03.cycle"), validate_stride=499, n_samples=1, max_states=1_500_000)
+    kw = dict(cycle_clause=(P, "C03.cycle"), validate_stride=499, n_samples=1, max_states=1_500_000, max_wall=(600 if tier == 'quick' else None))
     run_.add_all(explore_many(small, procs=NPROC, **kw))
     for w in big:
+        if run_.found_something():
+            run_.skip(w)  # verdict already decided; a defect can make the remaining graphs unboundedly large
+            continue
         run_.add(explore(w, procs=NPROC, **kw))
     return run_.finish(rule="complete reachable graph per configuration: every placement of <=K drop/dup/delay faults on every PDU in either direction x every interleaving; terminal states classified, non-progress cycles searched")
